@@ -1069,6 +1069,21 @@ pub fn open_chunk_with(
     idx: u64,
     tag: &[u8],
 ) -> Option<Vec<u8>> {
+    open_chunk_under(cipher, ct, base_nonce, cs, idx, idx, tag)
+}
+
+/// Opens chunk `idx` (AAD index) under the nonce base + `nonce_idx`: lets the
+/// harness find out which counter value a chunk was REALLY encrypted under
+/// when it does not open under the documented one.
+pub fn open_chunk_under(
+    cipher: &aes_gcm::Aes256Gcm,
+    ct: &[u8],
+    base_nonce: &[u8],
+    cs: u64,
+    idx: u64,
+    nonce_idx: u64,
+    tag: &[u8],
+) -> Option<Vec<u8>> {
     use aes_gcm::{AeadInOut, Nonce, Tag};
     if tag.len() != 16 || base_nonce.len() != 12 {
         return None;
@@ -1078,7 +1093,7 @@ pub fn open_chunk_with(
     t.copy_from_slice(tag);
     cipher
         .decrypt_inout_detached(
-            &Nonce::from(chunk_nonce(base_nonce, idx)),
+            &Nonce::from(chunk_nonce(base_nonce, nonce_idx)),
             &chunk_aad(cs, idx),
             buf.as_mut_slice().into(),
             &Tag::from(t),
